@@ -141,6 +141,8 @@ def build(case, d, tr, bound=None, permute_seed=None, shared=None):
 
     sim = S.Simulation(env, cfg, Telescope, planning_model=model, planning_algorithm='batch',
                        scheduling=algo, delay=dm, timestamp=0)
+    if case.get('tiering_off'):
+        sim.buffer.threshold = 10.0
     tr.attach(sim, env)
     tr.advlog = advlog
     tr.has_adversary = bool(adv)
